@@ -10,7 +10,8 @@
 //   case <n> man                 manual mode: sleep/sched/ge/drain/cancel/cancelx/remove/dump/destroy with explicit ticks,
 //                                plus the interval() generator: ivl <dur> <now> / next <now> / stop (std::stop_token)
 //   case <n> run <t0>            single-thread start(awaitable) under virtual time, scripted sleeper coroutines (co ... / go)
-//   case <n> thr | pool <k>      worker in a real std::thread / on a real thread_pool, virtual clock driven by `adv <t>`
+//   case <n> thr [v] | pool <k> [v]  worker in a real std::thread / on a real thread_pool, virtual clock driven by `adv <t>`;
+//                                v selects the entry point: scheduler(thread&) / start(thread&) / start_thread(), scheduler(pool&) / start(pool&)
 //   case <n> thrstep | poolstep <k>  same, but every acquisition of the scheduler mutex by the worker is a stall point:
 //                                `w` lets the worker run one lock region, public calls run in between, `free` ends the
 //                                stepping; every line reports the worker's state (w=lock | parked:<deadline> | gone)
@@ -440,7 +441,7 @@ struct run_ctx {
     sch_t &sch;
     std::vector<std::string> &ev;
     int live = 0;
-    scheduler::promise done;
+    std::function<void()> done;   // resolves the awaitable handed to start()
 };
 
 static async<void> sleeper(run_ctx &cx, int k, std::vector<act_t> script) {
@@ -503,16 +504,39 @@ static void run_start(std::istream &in, long long t0) {
             scripts.push_back(parse_script(w));
             std::cout << "co#" << scripts.size() - 1 << "\n";
         } else if (w[0] == "go") {
+            // go [mode]: what the awaitable handed to start() is and how it ends
+            //   0 future<void>, completes   1 future<void>, fails with test_exc(7)
+            //   2 future<int>, yields 1000 + number of coroutines   3 future<int>, fails with test_exc(7)
+            int mode = w.size() > 1 ? atoi(w[1].c_str()) & 3 : 0;
             {
                 sch_t sch;
-                future<void> all_done;
-                run_ctx cx{sch, evs, (int)scripts.size(), all_done.get_promise()};
+                future<void> done_v;
+                future<int> done_i;
+                scheduler::promise pv = done_v.get_promise();
+                cocls::promise<int> pi = done_i.get_promise();
+                int val = 1000 + (int)scripts.size();
+                run_ctx cx{sch, evs, (int)scripts.size(), [&] {
+                               if (mode == 0) pv();
+                               else if (mode == 1) pv(std::make_exception_ptr(test_exc(7)));
+                               else if (mode == 2) pi(val);
+                               else pi(std::make_exception_ptr(test_exc(7)));
+                           }};
                 vt::trace = &evs;
                 if (scripts.empty()) cx.done();
                 for (std::size_t k = 0; k < scripts.size(); ++k) sleeper(cx, (int)k, scripts[k]).detach();
-                sch.start(all_done);
+                std::string res;
+                try {
+                    if (mode < 2) {
+                        sch.start(done_v);
+                    } else {
+                        int r = sch.start(done_i);
+                        res = "=v:" + std::to_string(r);
+                    }
+                } catch (const test_exc &e) {
+                    res = "=exc:" + std::to_string(e.code);
+                }
                 vt::trace = nullptr;
-                evs.push_back("ret@" + std::to_string(vt::now_ticks));
+                evs.push_back("ret@" + std::to_string(vt::now_ticks) + res);
                 evs.push_back(sch.dump());
             }
             vh::emit("go", evs);
@@ -529,7 +553,9 @@ static void run_start(std::istream &in, long long t0) {
 // thread is parked, and `adv <t>` moves the clock from one wait deadline to the next up to <t>, so the trace is
 // deterministic.  Completions carry the clock reading at which the main thread observed them: `sleep#k=ok@<clock>`.
 // ------------------------------------------------------------------------------------------------
-static void run_mt(std::istream &in, const std::string &kind, int nthr, bool step) {
+// start variants (same worker, different entry point): thread mode 0 scheduler(std::thread&), 1 start(std::thread&),
+// 2 start_thread() (detached); pool mode 0 scheduler(thread_pool&), 1 start(thread_pool&)
+static void run_mt(std::istream &in, const std::string &kind, int nthr, bool step, int variant) {
     vt::single_thread = false;
     vt::now_ticks = 0;
     vt::waiters.clear();
@@ -543,7 +569,13 @@ static void run_mt(std::istream &in, const std::string &kind, int nthr, bool ste
     std::unique_ptr<sch_t> sch;
     if (kind == "thr") {
         vt::step_mode = step;
-        sch.reset(new sch_t(thr));
+        if (variant % 3 == 0) {
+            sch.reset(new sch_t(thr));
+        } else {
+            sch.reset(new sch_t());
+            if (variant % 3 == 1) sch->start(thr);
+            else sch->start_thread();
+        }
     } else {
         pool.reset(new pool_t(nthr));
         vt::quiesce();
@@ -552,7 +584,12 @@ static void run_mt(std::istream &in, const std::string &kind, int nthr, bool ste
             std::lock_guard g(vt::G);
             vt::step_mode = step;
         }
-        sch.reset(new sch_t(*pool));
+        if (variant % 2 == 0) {
+            sch.reset(new sch_t(*pool));
+        } else {
+            sch.reset(new sch_t());
+            sch->start(*pool);
+        }
     }
     vt::watch_cv = sch->cond_addr();
     vt::quiesce();
@@ -799,9 +836,10 @@ int main() {
         if (kind == "man") run_manual(std::cin);
         else if (kind == "run") run_start(std::cin, w.size() > 3 ? atoll(w[3].c_str()) : 0);
         else if (kind == "stoprace") run_stoprace(std::cin, w.size() > 3 ? atoll(w[3].c_str()) : 50);
-        else if (kind == "thr" || kind == "pool") run_mt(std::cin, kind, w.size() > 3 ? atoi(w[3].c_str()) : 2, false);
-        else if (kind == "thrstep") run_mt(std::cin, "thr", 1, true);
-        else if (kind == "poolstep") run_mt(std::cin, "pool", w.size() > 3 ? atoi(w[3].c_str()) : 2, true);
+        else if (kind == "thr") run_mt(std::cin, kind, 1, false, w.size() > 3 ? atoi(w[3].c_str()) : 0);
+        else if (kind == "pool") run_mt(std::cin, kind, w.size() > 3 ? atoi(w[3].c_str()) : 2, false, w.size() > 4 ? atoi(w[4].c_str()) : 0);
+        else if (kind == "thrstep") run_mt(std::cin, "thr", 1, true, w.size() > 3 ? atoi(w[3].c_str()) : 0);
+        else if (kind == "poolstep") run_mt(std::cin, "pool", w.size() > 3 ? atoi(w[3].c_str()) : 2, true, w.size() > 4 ? atoi(w[4].c_str()) : 0);
         else std::cout << "bad-kind\n";
         std::cout.flush();
     }
